@@ -152,7 +152,7 @@ def c20_race(prop, tier, seed):
             print("TROUBLE: %s %s" % (sig, detail[-1500:]), file=sys.stderr)
             sys.exit(2)
     for sig, occ in lib.items():
-        k = [x for x in known if x["property"] == prop and x["signature"] == sig and x.get("status", "known") == "known"]
+        k = [x for x in known if x.get("property") == prop and x.get("signature") == sig and x.get("status", "known") == "known"]
         if k:
             known_hits.append((sig, len(occ)))
             out.append("KNOWN-FINDING: property=%s %s (%s; %d reports)" % (prop, sig, k[0].get("what", ""), len(occ)))
